@@ -300,7 +300,7 @@ class CallMixin:
                 lv.entry = entry_args
                 self.call_log.append((fi, site, lv, v, st.pc))
             # every inlined call: (function, call chain, first node id, one past the last node id, value)
-            self.call_records.append((fi, nfr.chain, n_entry, len(self.g.nodes), v))
+            self.call_records.append((fi, nfr.chain, n_entry, len(self.g.nodes), v, st.pc))
             st.heap, st.cur, st.pc = mst.heap, mst.cur, mst.pc
             if memo_key is not None:
                 for r_ in [v] + list(self.roots(v)):
@@ -727,6 +727,27 @@ class CallMixin:
                     return v
                 if not any(k[0] in ("**", "n") for k in recv.attr):
                     return pos[1] if len(pos) > 1 else self.const(None)
+            if name == "pop" and len(pos) in (1, 2) and not kw and \
+                    self.const_key(self.res(pos[0], st)) is not self.NOKEY and \
+                    not any(k[0] in ("**", "n") for k in recv.attr):
+                key = self.const_key(self.res(pos[0], st))
+                v = self.dict_get(recv, key)
+                if v is None:
+                    if len(pos) > 1:
+                        return pos[1]
+                    self.effect("raise", site, st, fr, node=recv, text=f"KeyError({key!r})")
+                    raise PathEnd()
+                keys, args = [], []
+                for kd, vv in self.dict_items(recv):
+                    if kd[0] == "k" and kd[1] == key:
+                        continue
+                    keys.append(kd)
+                    args.append(vv)
+                new = self.mk("Dict", args, tuple(keys), site)
+                st.cur[recv_id.id] = new
+                self.effect("write", site, st, fr, node=recv_id, roots=self.roots(recv_id),
+                            idx=self.res(pos[0], st), value=None, how="method:pop", new=new)
+                return v
             if name == "setdefault" and len(pos) in (1, 2) and not kw and \
                     self.const_key(self.res(pos[0], st)) is not self.NOKEY and \
                     not any(k[0] in ("**", "n") for k in recv.attr):
